@@ -44,6 +44,10 @@ def check(chk, fx):
     result(chk, fx)
     lexrules.match(chk, fx)
     lexrules.slice_rule(chk, fx)
+    # the documented helper functors are rule functors too: their type-level witness and pattern rules (C19)
+    from . import c19
+    c19.hlp_t(chk, ("clang++",))
+    c19.hlp_a(chk, fx)
     lr.all_table_rules(chk, fx)
     tix.report(chk, fx)
     idxrule.report(chk, fx, lambda q: q.startswith(P) or q.startswith("ctpg::detail::value_reductors"),
@@ -244,6 +248,19 @@ def args(chk, fx):
             if arms[arm] == 1:
                 chk.ok("ARGS", site, "%s arm: functor %s on get<T_k>(move(*(start + k))), k = 0..n-1" % (
                     arm, "not called (value constructed)" if arm == "nullptr" else "called once"))
+    # the documented construction is LValueType(values...): parentheses, not braces (braces select initializer_list
+    # constructors: nterm<std::vector<int>> built from (3, 7) would become {3, 7})
+    pats = fx.fns(VR + "reduce_value_impl", patterns=True, insts=False)
+    if pats:
+        for n in walk(pats[0].body):
+            if n.get("k") == "ReturnStmt":
+                v = strip(n.get("value"))
+                if v is not None and v.get("k") == "CXXUnresolvedConstructExpr" and v.get("listinit"):
+                    chk.violation("ARGS", A.site(pats[0], n), "ARGS:list-initialisation",
+                                  "the left-side value is list-initialised (LValueType{...}); the documented construction is "
+                                  "LValueType(...): types with an initializer_list constructor get a different value")
+                elif v is not None and v.get("k") == "InitListExpr":
+                    chk.violation("ARGS", A.site(pats[0], n), "ARGS:list-initialisation", "the left-side value is list-initialised")
     missing = {"nullptr", "context", "plain"} - set(arms)
     if missing and not chk.violations:
         chk.incomplete("reduce_value_impl arms not witnessed: %s" % sorted(missing))
